@@ -133,7 +133,8 @@ fn write_value(world: &mut World, e: Entity, t: u32, n: u64) {
             em.insert(DirectionalLight { illuminance: n as f32, ..Default::default() });
         }
         T_NAME => {
-            em.insert(Name::new(format!("{}", n)));
+            // values from 100000 up stand for a name of that many characters (large payloads)
+            em.insert(Name::new(if n >= 100_000 { "x".repeat(n as usize) } else { format!("{}", n) }));
         }
         _ => panic!("write {}", t),
     }
@@ -163,7 +164,7 @@ fn read_values(e: &EntityRef) -> Vec<(u32, String)> {
         v.push((T_DIRLIGHT, format!("{}", c.illuminance as u64)));
     }
     if let Some(c) = e.get::<Name>() {
-        v.push((T_NAME, c.as_str().to_string()));
+        v.push((T_NAME, name_value(c)));
     }
     use bevy::pbr::{CascadeShadowConfig, Cascades, CascadesVisibleEntities, CubemapVisibleEntities};
     use bevy::render::primitives::{CascadesFrusta, CubemapFrusta, Frustum};
@@ -183,6 +184,14 @@ fn read_values(e: &EntityRef) -> Vec<(u32, String)> {
     comp(108, e.contains::<Cascades>());
     comp(109, e.contains::<CascadeShadowConfig>());
     v
+}
+
+fn name_value(c: &Name) -> String {
+    if c.as_str().len() >= 100_000 {
+        format!("{}", c.as_str().len())
+    } else {
+        c.as_str().to_string()
+    }
 }
 
 fn has_exclude(e: &EntityRef, t: u32) -> bool {
@@ -305,6 +314,8 @@ pub struct Peer {
 }
 
 pub struct Session {
+    /// never updated, never connected: only its type registry is used, to decode payloads for printing
+    pub decoder: App,
     pub peers: Vec<Peer>,
     pub ip: IpAddr,
     pub port: u16,
@@ -537,7 +548,12 @@ impl Session {
                 panicked: false,
             })
             .collect();
+        let mut decoder = new_app(false, false);
+        for t in 0..=8 {
+            register(&mut decoder, t);
+        }
         Session {
+            decoder,
             peers,
             ip,
             port: free_udp(ip),
@@ -603,7 +619,7 @@ impl Session {
     /// peer 0 (all family types are registered there by construction of the scenarios) — falls
     /// back to a digest when it cannot be decoded.
     fn decode_value(&self, _receiver: usize, name: &str, data: &[u8]) -> String {
-        let world = self.peers[0].app.world();
+        let world = self.decoder.world();
         let reg = world.resource::<AppTypeRegistry>().clone();
         let reg = reg.read();
         if reg.get_with_type_path(name).is_none() {
@@ -637,7 +653,7 @@ impl Session {
             return format!("{}", c.illuminance as u64);
         }
         if let Some(c) = v.downcast_ref::<Name>() {
-            return c.as_str().to_string();
+            return name_value(c);
         }
         if name == "bevy_sync::lib_priv::SkinnedMeshSyncMapper" {
             // struct { inverse_bindposes: Vec<Mat4>, joints: Vec<Uuid> }
@@ -669,7 +685,7 @@ impl Session {
     }
 
     fn decode_material(&self, _receiver: usize, data: &[u8]) -> String {
-        let world = self.peers[0].app.world();
+        let world = self.decoder.world();
         let reg = world.resource::<AppTypeRegistry>().clone();
         let reg = reg.read();
         let r = catch_unwind(AssertUnwindSafe(|| verif::bin_to_reflect(data, &reg)));
@@ -1162,7 +1178,26 @@ impl Session {
                 // a handshake or an initial sync still under way
                 has_cli && ((connecting && !st_connected) || (st_connected && fin == 0 && w.get_resource::<RenetClient>().map(|c| c.is_connected()).unwrap_or(false)))
             });
+            // bytes handed to renet and not yet acknowledged (large messages need wall-clock time)
+            let pending_net = self.peers.iter().any(|p| {
+                if p.panicked || !p.is_setup {
+                    return false;
+                }
+                let w = p.app.world();
+                const FULL: usize = 5 * 1024 * 1024;
+                let cli = w.contains_resource::<NetcodeClientTransport>()
+                    && w.get_resource::<RenetClient>().map(|c| c.is_connected() && c.channel_available_memory(bevy_renet::renet::DefaultChannel::ReliableOrdered) < FULL).unwrap_or(false);
+                let srv = w.contains_resource::<NetcodeServerTransport>()
+                    && w.get_resource::<RenetServer>()
+                        .map(|s| s.clients_id().iter().any(|c| s.channel_available_memory(*c, bevy_renet::renet::DefaultChannel::ReliableOrdered) < FULL))
+                        .unwrap_or(false);
+                cli || srv
+            });
+            if pending_net {
+                std::thread::sleep(std::time::Duration::from_millis(4));
+            }
             let busy = joining
+                || pending_net
                 || self.received_in_round > 0
                 || self.peers.iter().any(|p| {
                     !p.panicked
